@@ -33,8 +33,9 @@ class Scenario:
         self.bs.SEND_BUFFER_MAXIMUM_SIZE = self.saved_buf
         self.s.kill_all()
 
-    def open(self):
-        """run the capabilities exchange with randomly scheduled threads; returns True when Open"""
+    def open(self, extra=b""):
+        """run the capabilities exchange with randomly scheduled threads; returns True when Open
+        (extra: bytes of the peer's next message that ride in the same segment as its CEA / CER)"""
         from bromelia.base import DiameterMessage
         n = self.n
         n.start()
@@ -48,9 +49,9 @@ class Scenario:
             del n.sock.sent[:]
             cea = n.make("CEA", True, 1)
             cea.header.hop_by_hop, cea.header.end_to_end = cer.header.hop_by_hop, cer.header.end_to_end
-            n.feed(cea.dump())
+            n.feed(cea.dump() + extra)
         else:
-            n.feed(n.make("CER", True, 1).dump())
+            n.feed(n.make("CER", True, 1).dump() + extra)
         ok = self.run(until=lambda: n.d.is_open(), limit=6000)
         if ok and self.role == "server":
             self.run(until=lambda: self.complete_messages(n.sock.sent) >= 1, limit=4000)
@@ -147,7 +148,21 @@ def run_send(seed, nthreads, per_thread, plan_kind, inbound, send_buffer, big=Fa
             n.sock.write_plan = [rng.choice([1, 3, 20, 21, 64, 150, 1000]) for _ in range(rng.randint(1, 6))]
         elif plan_kind == "blocked":
             n.sock.blocked_writes = rng.randint(1, 2)
+        elif plan_kind == "stall":
+            n.sock.stalled = True                  # the peer does not read for a while: the socket is not writable
         use_list = rng.random() < 0.3
+        if use_list:
+            # a bulk may mix requests and answers: the order of the bulk is the order on the wire
+            from bromelia.base import DiameterAnswer
+            from bromelia.avps import SessionIdAVP, ResultCodeAVP, OriginHostAVP, OriginRealmAVP
+            for t in msgs:
+                for j in range(len(msgs[t])):
+                    if rng.random() < 0.4:
+                        k += 1
+                        ans = DiameterAnswer(command_code=316, application_id=16777251)
+                        ans.extend([SessionIdAVP(b"peer;1;%d" % k), ResultCodeAVP(2001), OriginHostAVP("client.network"), OriginRealmAVP("network")])
+                        ans.header.hop_by_hop, ans.header.end_to_end = 0x5000 + k, 0x6000 + k
+                        msgs[t][j] = ans
 
         # a retransmission: the same message object submitted a second time is one more submission
         if rng.random() < 0.3:
@@ -165,6 +180,24 @@ def run_send(seed, nthreads, per_thread, plan_kind, inbound, send_buffer, big=Fa
             n.feed(n.make("REQ", True, 1).dump())
         total = sum(len(m.dump()) for ms in msgs.values() for m in ms)
         stalled = None
+        if plan_kind == "stall":
+            # while the socket is not writable the peer keeps sending: READ events alternate with the hand-over of new batches
+            try:
+                for w in range(4):
+                    sc.run(limit=rng.randint(40, 250), timers=False)
+                    n.feed(n.make("REQ", True, 1).dump())
+                    sc.run(limit=rng.randint(40, 250), timers=False)
+                    # one more submission per round: a new batch is handed over between two READ events
+                    k += 1
+                    late = app_request(k, rng.choice([None, 7]))
+                    msgs.setdefault(nthreads + w, []).append(late)
+                    subs.append(sc.s.spawn(f"sender_late{w}", lambda m=late: n.d.send_message(m)))
+                sc.run(limit=rng.randint(100, 400), timers=False)
+                total = sum(len(m.dump()) for ms in msgs.values() for m in ms)
+            except (vsched.Deadlock, vsched.StepLimit, vsched.StepHang):
+                pass
+            n.sock.stalled = False
+            sc.s.wake_idle()
         try:
             # first without firing any long timer: everything submitted must reach the socket on its own
             if not sc.run(until=lambda: all(x.done for x in subs) and len(n.sock.sent) >= total, limit=30000, timers=False):
@@ -363,15 +396,42 @@ RECV_PREEMPT = {"opcode": ("read", "take_recv_data_stream"),
                 "line": ("recv_message_from_queue", "get_postprocess_recv_message", "get_message", "notify_postprocess_message")}
 
 
-def run_recv(seed, nmsgs, seg_kind, consumers, mix_base=True, cut=None, fine=None):
+def sized_request(n, size, k):
+    """a request from the peer whose encoding is exactly `size` bytes (a Class AVP takes the slack)"""
+    from bromelia.avps import ClassAVP
+    from bromelia.base import DiameterMessage
+    m = n.make("REQ", True, 1)
+    m.header.hop_by_hop, m.header.end_to_end = 0x1000 + k, 0x2000 + k
+    base = len(m.dump())
+    m.append(ClassAVP(bytes((k + i) % 251 for i in range(size - base - 8))))
+    m.refresh()
+    assert len(m.dump()) == size, (len(m.dump()), size)
+    return DiameterMessage.load(m.dump())[0]
+
+
+def run_recv(seed, nmsgs, seg_kind, consumers, mix_base=True, cut=None, fine=None, early=0):
     rng = random.Random(seed)
     fine = seed % 2 == 0 if fine is None else fine
-    sc = Scenario("client", seed, preempt=RECV_PREEMPT if fine else None)
+    role = "client" if seed % 4 else "server"
+    sc = Scenario(role if early else "client", seed, preempt=RECV_PREEMPT if fine else None)
     try:
-        if not sc.open():
-            return "connection did not open", {"blocked": sc.s.describe_blocked()}
         n = sc.n
         seq = []
+        early_raw = b""
+        if early:
+            # the first `early` bytes of the first message arrive in the same segment as the CEA / CER that opens the connection
+            n0 = n
+            first = n0.make("REQ", True, 1)
+            first.header.hop_by_hop, first.header.end_to_end = 0x0FFF, 0x1FFF
+            early_raw = first.dump()
+            seq.append(("REQ", first))
+        if not sc.open(extra=early_raw[:early]):
+            return "connection did not open", {"blocked": sc.s.describe_blocked()}
+        if seg_kind == "buffer":
+            # the peer's burst fills the read buffer exactly (4 messages of 64 KiB = the 256 KiB the transport asks recv() for)
+            mix_base = False
+            seq += [("REQ", sized_request(n, 65536, k)) for k in range(4)]
+            nmsgs = 0
         for k in range(nmsgs):
             if mix_base and rng.random() < 0.3:
                 seq.append(("DWR", n.make("DWR", True, 1 + k % 3)))
@@ -381,10 +441,10 @@ def run_recv(seed, nmsgs, seg_kind, consumers, mix_base=True, cut=None, fine=Non
                 m.header.hop_by_hop = 0x1000 + k
                 m.header.end_to_end = 0x2000 + k
                 seq.append((kind, m))
-        raw = b"".join(m.dump() for _k, m in seq)
+        raw = b"".join(m.dump() for _k, m in seq)[early:]
         if cut is not None and not 0 < cut < len(raw):
             return None, {"skipped": "cut outside the stream"}
-        segs = [raw[:cut], raw[cut:]] if cut is not None else segmentations(raw, rng, seg_kind)
+        segs = [raw[:cut], raw[cut:]] if cut is not None else [raw] if seg_kind == "buffer" else segmentations(raw, rng, seg_kind)
         app = [m for k, m in seq if k != "DWR"]
         got = {c: [] for c in range(consumers)}
         share = [len(app) // consumers + (1 if c < len(app) % consumers else 0) for c in range(consumers)]
@@ -428,6 +488,9 @@ def run_recv(seed, nmsgs, seg_kind, consumers, mix_base=True, cut=None, fine=Non
                     problems.append(f"consumer {c} received messages out of order")
         if not all(c.done for c in cons):
             problems.append("a consumer is still waiting although every message was sent: " + sc.s.describe_blocked()[:300])
+        surplus = len(n.assoc.postprocess_recv_messages.items) + len(n.assoc._recv_messages.items) if n.assoc is not None else 0
+        if surplus and not problems:
+            problems.append(f"{surplus} more message(s) than the peer sent are waiting to be delivered (duplicated)")
         # base messages consumed in order: the DWAs on the socket echo the DWR identifiers in the order sent
         from bromelia.base import DiameterMessage
         try:
@@ -458,6 +521,8 @@ def run_recv_sweep(kind, k, seed=1):
         m2.header.hop_by_hop, m2.header.end_to_end = 0x1002, 0x2002
         victim_name, intruder_name = kind.split("/")
         nc = 2 if kind == "consumer/consumer" else 1
+        if kind == "psm2/consumer":
+            victim_name, intruder_name = "psm", "consumer"
         got = {c: [] for c in range(nc)}
         share = [1, 1] if nc == 2 else [2]
 
@@ -530,6 +595,18 @@ def run_recv_sweep(kind, k, seed=1):
                     s.step(psm)
                 solo([cons[0]], lambda: cons_waiting(cons[0]))
                 n.feed(m2.dump())
+        elif kind == "psm2/consumer":
+            # one message is already queued for the application when the state machine thread hands over the next one
+            n.feed(m1.dump())
+            solo([tr, wk, psm], lambda: len(a.postprocess_recv_messages.items) >= 1 and n.at_ticker(psm))
+            n.feed(m2.dump())
+            solo([tr, wk], lambda: at_select() and a._recv_messages.items and wk_waiting())
+            for _ in range(k):
+                if s.enabled(psm) != "go" or (len(a.postprocess_recv_messages.items) + len(got[0]) >= 2 and n.at_ticker(psm)):
+                    ended = True
+                    break
+                s.step(psm)
+            solo([cons[0]], lambda: cons_waiting(cons[0]))
         else:                                                   # consumer/consumer: one message, two takers
             n.feed(m1.dump())
             solo([tr, wk, psm], lambda: len(a.postprocess_recv_messages.items) >= 1 and n.at_ticker(psm))
@@ -630,6 +707,9 @@ def run_life(seed, role, cause, point, blocked_consumer, restart=True, hook=None
                     dpa = n.make("DPA", True, 1)
                     dpa.header.hop_by_hop, dpa.header.end_to_end = dprs[0].header.hop_by_hop, dprs[0].header.end_to_end
                     n.feed(dpa.dump())
+        elif cause == "dpr-invalid":
+            # a DPR the validator rejects (Disconnect-Cause BUSY): not answered, but the connection is closed all the same
+            n.feed(n.make("DPR", False, 2, variant=2).dump())
         elif cause == "eof":
             n.peer_close()
         elif cause == "rst":
@@ -754,6 +834,10 @@ def run_life_sweep(victim, k, cause="eof", seed=1):
             if cause == "eof":
                 n.peer_close()
                 solo([tr], lambda: a.transport._stop_threads)
+            elif cause == "cer-close":
+                # the peer repeats its CER on the open connection; the application calls close() while the tick that handles it runs
+                n.feed(n.make("CER", True, 2).dump())
+                solo([tr, wk], lambda: len(a._recv_messages.items) >= 1 and wk.pending[0] == "wait")
             else:
                 n.feed(n.make("DPR", True, 2).dump())
                 solo([tr, wk], lambda: len(a._recv_messages.items) >= 1 and wk.pending[0] == "wait")
@@ -766,6 +850,9 @@ def run_life_sweep(victim, k, cause="eof", seed=1):
             if e == "timer" and victim != "psm":
                 ended = True
                 break
+            if victim == "psm" and cause == "cer-close" and i > 0 and n.at_ticker(psm) and not a._recv_messages.items:
+                ended = True
+                break
             s.step(v, fire_timeout=(e == "timer"))
         # the connection ends
         if victim == "psm":
@@ -775,6 +862,8 @@ def run_life_sweep(victim, k, cause="eof", seed=1):
         else:
             n.feed(n.make("DPR", True, 2).dump())
         others = [tr, psm] if victim == "worker" else [tr, wk, psm] if victim in ("consumer", "sender") else [wk] + cons
+        if victim == "psm" and cause == "cer-close":
+            others = [s.spawn("closer", n.d.close)]
         fired = 0
         for _ in range(6000):
             if psm.done and victim != "psm":
@@ -789,9 +878,17 @@ def run_life_sweep(victim, k, cause="eof", seed=1):
             fired += 1
             s.step(min(tm, key=lambda x: x.deadline), fire_timeout=True)
         solo([v], lambda: v.done)                   # the victim resumes first, then everybody
+        if victim == "psm" and cause == "cer-close":
+            # the peer answers the DPR that the close() must produce
+            sc.run(until=lambda: any(n.classify(m) == "DPR" for m in frames_of(n)), limit=8000)
+            dprs = [m for m in frames_of(n) if n.classify(m) == "DPR"]
+            if dprs:
+                dpa = n.make("DPA", True, 1)
+                dpa.header.hop_by_hop, dpa.header.end_to_end = dprs[0].header.hop_by_hop, dprs[0].header.end_to_end
+                n.feed(dpa.dump())
         try:
-            sc.run(until=lambda: all(t.done for t in s.threads), limit=30000)
-            end = sc.settle(limit=6000, timer_rounds=12)
+            sc.run(until=lambda: all(t.done for t in s.threads), limit=12000)
+            end = sc.settle(limit=4000, timer_rounds=12)
         except vsched.Deadlock as e:
             end = "deadlock: " + str(e)
         except (vsched.StepLimit, vsched.StepHang) as e:
